@@ -28,6 +28,8 @@ def main():
         print("no check for", a.prop)
         return 2
     try:
+        if a.selftest:
+            return checks.binding_selftest(a.prop)
         rc = fn(tier=tier, seed=seed, replay=a.replay, selftest=a.selftest)
     except verif.MachineryError as e:
         print("MACHINERY-ERROR property=%s %s" % (a.prop, str(e)[-4000:]))
